@@ -8,6 +8,7 @@ package c25
 import (
 	"encoding/json"
 	"fmt"
+	"time"
 
 	"github.com/pkg/errors"
 	"github.com/spikeekips/mitum/storage"
@@ -18,6 +19,10 @@ import (
 )
 
 func init() { h.Register("C25", run) }
+
+const watchdog = 60 * time.Second
+
+var errHang = errors.New("call did not return")
 
 type op struct {
 	A    string          `json:"a"`
@@ -46,6 +51,7 @@ type result struct {
 	Err   string          `json:"err,omitempty"`   // error text of the call (any)
 	KV    [][]interface{} `json:"kv"`              // raw store after the call: [[key bytes...], value]
 	Panic string          `json:"panic,omitempty"` // panic text
+	Hang  bool            `json:"hang,omitempty"`  // the call did not return within the watchdog time; the driver stops here
 	Calls int             `json:"calls"`
 }
 
@@ -251,8 +257,8 @@ func run(args []string) error {
 			w.close()
 		}
 	}()
-	i := 0
-	return h.ReadNDJSON(fl["in"], func(line []byte) error {
+	i, singles := 0, 0
+	err = h.ReadNDJSON(fl["in"], func(line []byte) error {
 		var st step
 		if err := json.Unmarshal(line, &st); err != nil {
 			return err
@@ -266,14 +272,37 @@ func run(args []string) error {
 			w = newWorld()
 		}
 		if st.Single == 1 {
+			// a fresh store now and then: goleveldb keeps every overwritten / deleted version until a
+			// compaction, and its iterators walk over them
+			if singles++; singles%400 == 0 {
+				w.close()
+				w = newWorld()
+			}
 			if err := w.reset(st.Pre, st.Closed); err != nil {
 				return err
 			}
 		}
 		res := result{I: i, Calls: 1}
-		res.Panic = h.Catch(func() { w.do(st.Op, &res) })
+		done := make(chan struct{})
+		go func() {
+			res.Panic = h.Catch(func() { w.do(st.Op, &res) })
+			close(done)
+		}()
+		select {
+		case <-done:
+		case <-time.After(watchdog):
+			// a call that does not come back: report it and stop (the goroutine cannot be killed);
+			// the driver judges what was answered so far
+			out.Emit(result{I: i, Hang: true, Calls: 1, KV: [][]interface{}{}})
+			return errHang
+		}
 		res.KV = w.dump()
 		out.Emit(res)
 		return nil
 	})
+	if err == errHang {
+		w = nil // do not Close() a store a runaway call may still hold
+		return nil
+	}
+	return err
 }
